@@ -367,6 +367,33 @@ theorem reverse_call_rejects_outside (c : RevCfg) (root : Root) (ys : List Y) (q
   rw [hd, this]
   rfl
 
+/-- **… also when the range check is switched off** (`detect_range_error=False`): on the table's
+    own domain a value outside the range gives a bracket without a sign change, which the root
+    finder refuses — the call raises in either mode and returns nothing. -/
+theorem reverse_call_rejects_outside_any_mode (c : RevCfg) (root : Root) (href : RootRefuses root)
+    (ys : List Y) (q : Rat) (hdom : c.ld = none ∧ c.ud = none) (hq : some q ∈ ys)
+    (hout : q < min (c.f c.dl) (c.f c.du) ∨ max (c.f c.dl) (c.f c.du) < q) :
+    ∃ e, reverseCall c root ys = .error e := by
+  by_cases hd : c.detect = true
+  · exact ⟨_, reverse_call_rejects_outside c root ys q hd hq hout⟩
+  · have hlo : c.lo = c.dl := by unfold RevCfg.lo; rw [hdom.1]; rfl
+    have hhi : c.hi = c.du := by unfold RevCfg.hi; rw [hdom.2]; rfl
+    have hpos : 0 < (c.f c.lo - q) * (c.f c.hi - q) := by
+      rw [hlo, hhi]
+      rcases hout with h | h
+      · have h1 := lt_of_lt_of_le h (min_le_left _ _)
+        have h2 := lt_of_lt_of_le h (min_le_right _ _)
+        exact mul_pos (by linarith) (by linarith)
+      · have h1 := lt_of_le_of_lt (le_max_left _ _) h
+        have h2 := lt_of_le_of_lt (le_max_right _ _) h
+        exact mul_pos_of_neg_of_neg (by linarith) (by linarith)
+    have hnone : root (fun x => c.f x - q) c.lo c.hi = none := href _ _ _ hpos
+    unfold reverseCall
+    have : c.detect = false := by cases h : c.detect <;> simp_all
+    rw [this]
+    simp only [Bool.false_and]
+    exact invertAll_error_of_refused hq hnone
+
 /-- **Every value in the range is inverted** (default search domain, root finder complete on the
     sign-changing brackets of this table), for increasing and decreasing tables. -/
 theorem reverse_call_accepts_in_range (c : RevCfg) (root : Root) (ε : Rat) (hr : RootSound ε root)
